@@ -14,7 +14,9 @@ SPEC = {
         "when every case has an execution (C26_verdict_iff_no_failures); through doFlakeRun's loop the target passes exactly when every case that ran has a "
         "successful or skipped execution in one of the at most `flakiness` executed runs, which form a prefix of the runs and stop after the first all-green "
         "one (C26_passes_iff, C26_runs_within_allowance); appendResult gives one main execution plus one per flaky/rerun child (C26_xml_case_executions); "
-        "nested suites and bare test cases are reported completely and an unfinished Go test is an error (C26_nested_cases_reported, C26_bare_case_reported, "
+        "a JUnit report is a tree of suites nested to any depth: the parsed cases are exactly the cases at every depth, every counter is the sum over the tree and the "
+        "target passes iff no case anywhere failed or errored (C26_tree_all_cases, C26_tree_counts, C26_tree_verdict, by induction over the tree; the fact "
+        "nestedTraversal pins that toCoreTestSuite calls itself on every element of TestSuites); nested suites and bare test cases are reported completely and an unfinished Go test is an error (C26_nested_cases_reported, C26_bare_case_reported, "
         "C26_go_unfinished_is_error - these hold for the code after the four fix: commits 1fbcce1, 0ae0df7, ace53fa, c753b62; the C26_old_* theorems record "
         "what the old fact values meant). Parsing itself (encoding/xml, go-junit-report) is NOT modelled: correspondence only."
     ),
@@ -63,4 +65,8 @@ Dry-runs on scratch copies (VERIF_REPO) with findings_inbox/C26.jsonl loaded; ev
                                                                (property: 2 tests, 1 failed, target fails; real: 1 test, 1 flake, target passes) - classes flake-merge-mismatch, summary-mismatch.
                                                                Generators now contain a family of colliding (class, name) pairs (re-splits of a dotted string, same name in
                                                                different classes, same class with different names) in the Add sequences, the XML documents and the plz test part.
+ s3 (round-3 seed) toCoreTestSuite walks nested suites with a worklist that ranges over a snapshot (only direct children are visited)
+                                                            -> exit 1: nestedTraversal = "other:range over pending" breaks C26_facts_ok / C26_tree_*; 20 disagreements; failing input e.g.
+                                                               `parse t:tree:(lvl.ok1(lvl.ok2(lvl.ok3;lvl.bad3:F)))`: property tests=4 fail=1 all=0, real tests=2 all=1 (class nested-testsuite-cases-dropped).
+                                                               Generators: suite trees of depth 1..5 with cases at every level (op `t:tree:` / `t:trees:`), exhaustive chains with the only failure at level k.
 """
